@@ -61,7 +61,7 @@ pub struct Gen<'a> {
 }
 
 const STRS: &[&str] = &["", "a", "ab", "xyz", "hello world", "åäö", "λ→", "q\"uote", "tab\tx", "line\nbreak", "0", "日本", "hello.world", "a.b", "std.prelude", "@home", "x@1", "n@12_3", ".", "..", "@", "a:b", "{x}", "//c", "/*c*/", "#Int+", "\\", "r#", "'", "1.5e3", "_", "-- ", "Some x", "let", "\u{1F600}", "a\r\nb"];
-const FLOATS: &[f64] = &[0.0, 1.0, 0.5, 2.0, 1.25, 3.5, 100.0, 0.125, 1e10, 7.75];
+const FLOATS: &[f64] = &[0.0, 1.0, 0.5, 2.0, 1.25, 3.5, 100.0, 0.125, 1e10, 7.75, -1.5, -0.0, -1e10, 0.001, 123456.789, -7.75, -0.125];
 // non-ASCII char literals panic the lexer on the unchanged tree (finding under C09): not used here
 const CHARS: &[char] = &['a', 'z', 'A', '0', ' ', '~', '\n', '\''];
 
